@@ -130,6 +130,14 @@ static int vf_nlive(const struct vf_model * m)
 static void vf_reset(struct cstl_hash * h, struct vf_model * m)
 {
     int i;
+#ifndef VF_NATIVE
+    /* CBMC records released / out-of-scope objects in two ghost pointers whose value sets grow
+     * with every scenario and make each pointer check of a later scenario more expensive
+     * (quadratic overall, measured).  A new scenario starts from a fresh table and a reset pool:
+     * nothing of an earlier scenario is reachable, so the records start afresh as well. */
+    __CPROVER_deallocated = NULL;
+    __CPROVER_dead_object = NULL;
+#endif
     for (i = 0; i < VF_POOL; i++) {
         vf_pool[i].id = i; vf_pool[i].poisoned = 0;
         vf_pool[i].hn.key = 77; vf_pool[i].hn.next = VF_GARBAGE;
@@ -152,8 +160,9 @@ static void vf_k_pre(const struct cstl_hash * h)
     vf_pre.clean = h->bucket.rh.clean; vf_pre.count = h->bucket.count; vf_pre.rh_count = h->bucket.rh.count;
     vf_pre.hash = h->bucket.hash; vf_pre.rh_hash = h->bucket.rh.hash;
     VF_ASSERT(h->bucket.count >= 1 && h->bucket.count <= VF_MAXB, "keyed operation: the table has been resized (1..4 buckets in these scopes)");
+    if (!vf_pre.pending) return;
     for (b = 0; b < VF_MAXB; b++) {
-        vf_pre.dirty[b] = vf_pre.pending && b < vf_pre.count && h->bucket.at[b].cst != h->bucket.cst;
+        vf_pre.dirty[b] = b < vf_pre.count && h->bucket.at[b].cst != h->bucket.cst;
     }
 }
 static void vf_k_post(const struct cstl_hash * h)
@@ -420,17 +429,20 @@ void h_b_basic(void)
 /* four elements under keys 0,1,3,1 in a table (m1,f1), a resize request (m2,f2), then the first
  * s of four keyed operations; element 4 (key 2) and element 5 (spare) are not inserted */
 static const size_t vf_keys4[4] = { 0, 1, 3, 1 };
-static void vf_keyed_op(struct cstl_hash * h, struct vf_model * m, int j)
+static void vf_keyed_op(struct cstl_hash * h, struct vf_model * m, int code)
 {
-    switch (j) {
+    switch (code) {
     case 0: vf_find_any_check(h, m, 1); break;
     case 1: m_insert(h, m, 4, 2); break;
     case 2: m_erase(h, m, 1); break;
-    default: vf_find_check(h, m, 3, -1); break;
+    case 3: vf_find_check(h, m, 3, -1); break;
+    case 4: vf_find_any_check(h, m, 2); break;
+    default: m_erase(h, m, 0); break;
     }
     vf_check_struct(h, m);
 }
-static void vf_build(struct cstl_hash * h, struct vf_model * m, size_t m1, int f1, size_t m2, int f2, int s)
+static const int vf_ops_default[4] = { 0, 1, 2, 3 };
+static void vf_build(struct cstl_hash * h, struct vf_model * m, size_t m1, int f1, size_t m2, int f2, const int * ops, int s)
 {
     int j;
     vf_reset(h, m);
@@ -444,7 +456,7 @@ static void vf_build(struct cstl_hash * h, struct vf_model * m, size_t m1, int f
     VF_ASSERT(!H_PENDING(h) || (h->bucket.rh.clean == 0 && h->bucket.count == m1), "resize: the sweep starts at bucket 0 of the old geometry");
     vf_check_struct(h, m);
     for (j = 0; j < s; j++) {
-        vf_keyed_op(h, m, j);
+        vf_keyed_op(h, m, ops[j]);
     }
 }
 static void vf_load_check(const struct cstl_hash * h, const struct vf_model * m)
@@ -464,13 +476,18 @@ static void vf_load_check(const struct cstl_hash * h, const struct vf_model * m)
 #ifndef VF_SMAX
 #define VF_SMAX 4
 #endif
-/* variants: 0 keep going with keyed operations only, 1 a second resize to a third geometry,
- * 2 resize back to the original geometry, 3 forced rehash, 4 shrink-to-fit, 5 swap */
+/* For every (f1) -> (m2,f2), every prefix length s of the keyed operations and every variant v:
+ *   0 nothing more (keyed operations only)        3 cstl_hash_rehash (forced completion)
+ *   1 a second resize to a third geometry         4 cstl_hash_shrink_to_fit
+ *   2 resize back to the original geometry        5 cstl_hash_swap with a second table
+ * then the full checker (whose lookups drive whatever is still pending to completion, under the
+ * C19 monitor), the installed geometry and the load factor. */
 void h_b_rehash(void)
 {
     const size_t m1 = VF_M1;
     size_t m2;
     int f1, f2, s, v;
+    int saw_second_while_pending = 0, saw_back_while_pending = 0, saw_forced = 0, saw_shrink_forced = 0, saw_swap_pending = 0;
     for (f1 = 0; f1 < 2; f1++) {
         for (m2 = 1; m2 <= 4; m2++) {
             for (f2 = 0; f2 < 2; f2++) {
@@ -478,24 +495,32 @@ void h_b_rehash(void)
                     for (v = VF_VAR_LO; v <= VF_VAR_HI; v++) {
                         struct cstl_hash h, h2; struct vf_model m, mb;
                         struct cstl_hash * t = &h;
-                        size_t exp_n = m2; int exp_f = f2;
-                        vf_build(&h, &m, m1, f1, m2, f2, s);
+                        size_t exp_n = m2; int exp_f = f2, was_pending;
+                        vf_build(&h, &m, m1, f1, m2, f2, vf_ops_default, s);
+                        was_pending = H_PENDING(&h);
                         if (v == 1) {
                             exp_n = (m2 % 4) + 1; exp_f = 1 - f2;
                             m_resize(&h, exp_n, exp_f);
                             VF_ASSERT(H_PENDING(&h) && h.bucket.count == m2 && h.bucket.hash == vf_fn(f2),
                                       "second resize: the earlier request is completed first, the new one is pending");
+                            saw_second_while_pending |= was_pending;
                         } else if (v == 2) {
                             exp_n = m1; exp_f = f1;
                             m_resize(&h, exp_n, exp_f);
+                            VF_ASSERT(H_PENDING(&h) == (m1 != m2 || f1 != f2), "resize back: pending unless the table never left the original geometry");
+                            saw_back_while_pending |= was_pending;
                         } else if (v == 3) {
                             cstl_hash_rehash(&h);
-                            VF_ASSERT(!H_PENDING(&h), "forced rehash: nothing is pending afterwards");
+                            VF_ASSERT(!H_PENDING(&h) && h.bucket.count == m2 && h.bucket.hash == vf_fn(f2), "forced rehash: the requested geometry is installed, nothing is pending");
+                            saw_forced |= was_pending;
                         } else if (v == 4) {
+                            const size_t cap = h.bucket.capacity;
                             cstl_hash_shrink_to_fit(&h);
                             VF_ASSERT((H_PENDING(&h) ? h.bucket.rh.count : h.bucket.count) == m2 && (H_PENDING(&h) ? h.bucket.rh.hash : h.bucket.hash) == vf_fn(f2),
                                       "shrink-to-fit: the effective geometry is unchanged");
                             VF_ASSERT(h.bucket.capacity == m2 && h.bucket.capacity >= h.bucket.count, "shrink-to-fit: the bucket array holds exactly the effective geometry");
+                            VF_ASSERT(cap == m2 || !H_PENDING(&h), "shrink-to-fit: releasing buckets completes the rehash first");
+                            saw_shrink_forced |= was_pending && cap > m2;
                         } else if (v == 5) {
                             /* a second table holding the spare element; the two tables trade places */
                             int i;
@@ -508,22 +533,215 @@ void h_b_rehash(void)
                             cstl_hash_swap(&h, &h2);
                             t = &h2;
                             vf_check_struct(&h, &mb);
+                            VF_ASSERT(H_PENDING(&h2) == was_pending && !H_PENDING(&h), "swap: a pending rehash travels with its table");
+                            saw_swap_pending |= was_pending;
                         }
-                        vf_check_struct(t, &m);
                         vf_check(t, &m, s + v);
+                        VF_ASSERT(!H_PENDING(t) && t->bucket.count == exp_n && t->bucket.hash == vf_fn(exp_f), "the most recently requested geometry is installed once the rehash is complete");
+                        vf_load_check(t, &m);
                         if (v == 5) {
                             vf_check(&h, &mb, s);
                             VF_ASSERT(h.bucket.count == 2 && h.bucket.hash == cstl_hash_div, "swap: the other table arrived with its geometry");
                             cstl_hash_clear(&h, NULL);
                         }
-                        VF_ASSERT(!H_PENDING(t) && t->bucket.count == exp_n && t->bucket.hash == vf_fn(exp_f), "the most recently requested geometry is installed once the rehash is complete");
-                        vf_load_check(t, &m);
                         cstl_hash_clear(t, NULL);
                     }
                 }
             }
         }
     }
+    VF_REACH(vf_max_moved == (VF_M1 >= 3 ? 3 : VF_M1), "a keyed operation that relocates as many buckets as the bound allows");
+    VF_REACH(vf_completed_by_op, "a keyed operation completes a rehash");
+    VF_REACH(vf_saw_new_bucket_node || VF_M1 == 4, "nodes seen in buckets added by a pending grow");
+    VF_REACH(vf_saw_pending_shrink || VF_M1 == 1, "a pending shrink seen");
+#if VF_VAR_LO <= 1 && VF_VAR_HI >= 1
+    VF_REACH(saw_second_while_pending, "second resize issued while the first is pending");
+#endif
+#if VF_VAR_LO <= 2 && VF_VAR_HI >= 2
+    VF_REACH(saw_back_while_pending, "resize back issued while pending");
+#endif
+#if VF_VAR_LO <= 3 && VF_VAR_HI >= 3
+    VF_REACH(saw_forced, "forced rehash of a pending table");
+#endif
+#if VF_VAR_LO <= 4 && VF_VAR_HI >= 4
+    VF_REACH(saw_shrink_forced || VF_M1 == 1, "shrink-to-fit of a table with a pending shrink");
+#endif
+#if VF_VAR_LO <= 5 && VF_VAR_HI >= 5
+    VF_REACH(saw_swap_pending, "swap of a table with a pending rehash");
+#endif
+    (void)saw_second_while_pending; (void)saw_back_while_pending; (void)saw_forced; (void)saw_shrink_forced; (void)saw_swap_pending;
+    VF_END();
+}
+#endif
+
+/* ------------------------------------------------------------------ B3: foreach / foreach_const / clear (C04) */
+#if defined(VF_B) && VF_B == 3
+struct vf_state { size_t m1; int f1; size_t m2; int f2; int s; int ops[2]; };
+static const struct vf_state vf_states[] = {
+    { 3, 0, 3, 0, 0, { 0, 0 } },      /* 0 no rehash pending                                                */
+    { 2, 0, 4, 0, 0, { 0, 0 } },      /* 1 grow pending, nothing relocated yet                              */
+    { 2, 0, 4, 0, 1, { 0, 0 } },      /* 2 grow pending, elements already relocated into the new buckets    */
+    { 1, 0, 4, 1, 0, { 0, 0 } },      /* 3 grow from a single bucket, other hash function                   */
+    { 4, 0, 2, 0, 0, { 0, 0 } },      /* 4 shrink pending, nothing relocated yet                            */
+    { 4, 0, 2, 1, 1, { 0, 0 } },      /* 5 shrink pending, partly relocated, other hash function            */
+    { 4, 0, 1, 2, 1, { 0, 0 } },      /* 6 shrink to one bucket, partly relocated                           */
+    { 4, 1, 4, 0, 1, { 0, 0 } },      /* 7 same bucket count, other hash function                           */
+    { 4, 0, 3, 0, 2, { 1, 5 } },      /* 8 shrink pending after an insert and an erase, five-element history */
+    { 3, 0, 4, 0, 1, { 1, 0 } },      /* 9 grow pending after an insert: five live elements                 */
+};
+#define VF_NSTATES ((int)(sizeof(vf_states) / sizeof(vf_states[0])))
+#ifndef VF_ST_LO
+#define VF_ST_LO 0
+#define VF_ST_HI (VF_NSTATES - 1)
+#endif
+
+static int vf_v_seen[VF_POOL], vf_v_n, vf_v_stop, vf_v_erase, vf_v_token;
+static struct cstl_hash * vf_v_h;
+static struct vf_model * vf_v_m;
+static int vf_visit_common(const void * e, void * p)
+{
+    const int i = vf_index_of(e);
+    VF_ASSERT(p == &vf_v_token, "foreach: the caller's private pointer is handed through");
+    VF_ASSERT(i >= 0, "foreach: only inserted elements are visited");
+    if (i < 0) return 99;
+    VF_ASSERT(!vf_pool[i].poisoned, "foreach: a released element is not visited again");
+    VF_ASSERT(vf_v_m->live[i], "foreach: only live elements are visited");
+    vf_v_seen[i]++;
+    if (vf_v_erase) {
+        /* the callback removes the element it is given from the table and releases it */
+        m_erase(vf_v_h, vf_v_m, i);
+        vf_pool[i].poisoned = 1;
+        vf_pool[i].hn.next = VF_GARBAGE;
+        vf_pool[i].hn.key = 99;
+    }
+    return vf_v_n++ == vf_v_stop ? 7 + vf_v_stop : 0;
+}
+static int vf_cvisit(const void * e, void * p) { return vf_visit_common(e, p); }
+static int vf_visit(void * e, void * p) { return vf_visit_common(e, p); }
+
+/* run one traversal; `was` is the model before it (the erasing callback changes the model) */
+static void vf_traverse(struct cstl_hash * h, struct vf_model * m, int constant, int stop, int erase)
+{
+    struct vf_model was = *m;
+    const int n = vf_nlive(m);
+    int i, res, total = 0;
+    for (i = 0; i < VF_POOL; i++) vf_v_seen[i] = 0;
+    vf_v_n = 0; vf_v_stop = stop; vf_v_erase = erase; vf_v_h = h; vf_v_m = m;
+    if (constant) {
+        const int pending = H_PENDING(h);
+        const size_t clean = h->bucket.rh.clean, count = h->bucket.count;
+        res = cstl_hash_foreach_const(h, vf_cvisit, &vf_v_token);
+        VF_ASSERT(H_PENDING(h) == pending && h->bucket.count == count && (!pending || h->bucket.rh.clean == clean), "foreach_const: the table is not touched");
+    } else {
+        const size_t exp_n = H_PENDING(h) ? h->bucket.rh.count : h->bucket.count;
+        cstl_hash_func_t * const exp_f = H_PENDING(h) ? h->bucket.rh.hash : h->bucket.hash;
+        res = cstl_hash_foreach(h, vf_visit, &vf_v_token);
+        VF_ASSERT(!H_PENDING(h) && h->bucket.count == exp_n && h->bucket.hash == exp_f, "foreach: a pending rehash is completed first");
+    }
+    for (i = 0; i < VF_POOL; i++) {
+        VF_ASSERT(vf_v_seen[i] <= 1, "foreach: no element is visited twice");
+        VF_ASSERT(was.live[i] || vf_v_seen[i] == 0, "foreach: an element that is not in the table is not visited");
+        total += vf_v_seen[i];
+    }
+    VF_ASSERT(total == vf_v_n, "foreach: visits are counted once each");
+    if (stop >= 0 && stop < n) {
+        VF_ASSERT(res == 7 + stop, "foreach: the value with which the visit function asks to stop is returned");
+        VF_ASSERT(vf_v_n == stop + 1, "foreach: no visit after the visit function asked to stop");
+    } else {
+        VF_ASSERT(res == 0, "foreach: 0 when the visit function never asks to stop");
+        VF_ASSERT(vf_v_n == n, "foreach: every live element is visited exactly once");
+    }
+    if (erase) {
+        VF_ASSERT(cstl_hash_size(h) == (size_t)(n - vf_v_n), "foreach: the visited elements were removed by the callback");
+    }
+    vf_check_struct(h, m);
+}
+
+static int vf_c_seen[VF_POOL], vf_c_n;
+static void vf_clr(void * e, void * p)
+{
+    const int i = vf_index_of(e);
+    (void)p;
+    VF_ASSERT(i >= 0, "clear: only inserted elements are handed over");
+    if (i < 0) return;
+    VF_ASSERT(!vf_pool[i].poisoned, "clear: each element is handed over at most once");
+    vf_pool[i].poisoned = 1;
+    vf_pool[i].hn.next = VF_GARBAGE;           /* the callback may free / reuse the memory */
+    vf_pool[i].hn.key = 99;
+    vf_c_seen[i]++;
+    vf_c_n++;
+}
+
+void h_b_enum(void)
+{
+    int si, a, i, stop;
+    int grow_relocated_const = 0, grow_relocated_clear = 0, shrink_const = 0, shrink_clear = 0, erase_all = 0;
+    for (si = VF_ST_LO; si <= VF_ST_HI; si++) {
+        const struct vf_state * const st = &vf_states[si];
+        for (a = 0; a < 6; a++) {
+            struct cstl_hash h; struct vf_model m;
+            int n, grow_relocated, shrinking;
+            vf_saw_new_bucket_node = 0;
+            vf_build(&h, &m, st->m1, st->f1, st->m2, st->f2, st->ops, st->s);
+            n = vf_nlive(&m);
+            grow_relocated = vf_saw_new_bucket_node && H_PENDING(&h);
+            shrinking = H_PENDING(&h) && h.bucket.rh.count < h.bucket.count;
+            VF_ASSERT(si == 0 || H_PENDING(&h), "the chosen scenarios leave the rehash pending");
+            if (a == 0) {
+                /* foreach_const does not change the table: the complete walk and every stop position on the same table */
+                vf_traverse(&h, &m, 1, -1, 0);
+                for (stop = 0; stop < n; stop++) {
+                    vf_traverse(&h, &m, 1, stop, 0);
+                }
+                grow_relocated_const |= grow_relocated;
+                shrink_const |= shrinking;
+            } else if (a == 1) {
+                vf_traverse(&h, &m, 0, -1, 0);
+            } else if (a == 2) {
+                /* the first call meets the pending table, the later ones the settled one */
+                for (stop = 0; stop < n; stop++) {
+                    vf_traverse(&h, &m, 0, stop, 0);
+                }
+            } else if (a == 3) {
+                vf_traverse(&h, &m, 0, -1, 1);
+                VF_ASSERT(cstl_hash_size(&h) == 0, "foreach with an erasing callback empties the table");
+                erase_all |= n >= 4;
+            } else if (a == 4) {
+                vf_traverse(&h, &m, 0, 1, 1);
+                vf_traverse(&h, &m, 0, -1, 0);              /* the survivors, once each */
+            } else {
+                for (i = 0; i < VF_POOL; i++) vf_c_seen[i] = 0;
+                vf_c_n = 0;
+                cstl_hash_clear(&h, vf_clr);
+                for (i = 0; i < VF_POOL; i++) {
+                    VF_ASSERT(vf_c_seen[i] == (m.live[i] ? 1 : 0), "clear: every live element is handed to the callback exactly once, nothing else is");
+                    m.live[i] = 0;
+                }
+                VF_ASSERT(vf_c_n == n, "clear: the callback runs once per live element");
+                VF_ASSERT(h.bucket.at == NULL && h.bucket.count == 0 && h.bucket.capacity == 0 && h.bucket.hash == NULL && h.bucket.rh.hash == NULL &&
+                          cstl_hash_size(&h) == 0 && h.off == offsetof(struct vf_el, hn), "clear: the table equals a freshly initialised one");
+                /* reusable: the default hash function is chosen again, as on a fresh table */
+                cstl_hash_resize(&h, 2, NULL);
+                VF_ASSERT(!H_PENDING(&h) && h.bucket.count == 2 && h.bucket.hash == cstl_hash_mul, "clear: a fresh resize lands at once with the default hash function");
+                m_insert(&h, &m, 0, 1);
+                m_insert(&h, &m, 2, 2);
+                vf_check(&h, &m, 0);
+                grow_relocated_clear |= grow_relocated;
+                shrink_clear |= shrinking;
+            }
+            vf_check(&h, &m, a);
+            cstl_hash_clear(&h, NULL);
+        }
+    }
+#define VF_HAS(x) (VF_ST_LO <= (x) && (x) <= VF_ST_HI)
+#define VF_HAS_GROW (VF_HAS(2) || VF_HAS(9))
+#define VF_HAS_SHRINK (VF_HAS(4) || VF_HAS(5) || VF_HAS(6) || VF_HAS(8))
+    VF_REACH(grow_relocated_const || !VF_HAS_GROW, "foreach_const on a pending grow with elements already in the new buckets");
+    VF_REACH(grow_relocated_clear || !VF_HAS_GROW, "clear on a pending grow with elements already in the new buckets");
+    VF_REACH(shrink_const || !VF_HAS_SHRINK, "foreach_const on a pending shrink");
+    VF_REACH(shrink_clear || !VF_HAS_SHRINK, "clear on a pending shrink");
+    VF_REACH(erase_all, "erasing callback over a table of at least four elements");
+    (void)grow_relocated_const; (void)grow_relocated_clear; (void)shrink_const; (void)shrink_clear; (void)erase_all;
     VF_END();
 }
 #endif
@@ -535,6 +753,8 @@ struct vf_harness vf_harnesses[] = {
     { "h_b_basic", h_b_basic },
 #elif defined(VF_B) && VF_B == 2
     { "h_b_rehash", h_b_rehash },
+#elif defined(VF_B) && VF_B == 3
+    { "h_b_enum", h_b_enum },
 #endif
     { NULL, NULL }
 };
